@@ -27,6 +27,10 @@ type ReplayFile struct {
 	MinRuns     int        `json:"minimiser_runs"`
 	Violation   *Violation `json:"violation"`
 	Trace       []string   `json:"trace,omitempty"`
+	// Regenerate: the tape is not recorded (the run never finished, e.g.
+	// the client panicked); replay draws it afresh from the seed, which
+	// yields the same tape.
+	Regenerate bool `json:"regenerate,omitempty"`
 }
 
 // Guard runs f and swallows the unwinding used by Failf/Infra. Any other
@@ -188,7 +192,11 @@ func Main(t *testing.T, engines map[string]EngineFunc) {
 		if rf.Tier != "" {
 			tier = rf.Tier
 		}
-		rc := RunOnce(t, eng, prop, tier, rf.Seed, ReplayTape(rf.Tape), false)
+		tape := ReplayTape(rf.Tape)
+		if rf.Regenerate {
+			tape = NewTape(rf.Seed)
+		}
+		rc := RunOnce(t, eng, prop, tier, rf.Seed, tape, false)
 		if os.Getenv("VERIF_PRINT_TRACE") != "" {
 			for _, l := range rc.Trace {
 				fmt.Println("TRACE", l)
